@@ -109,6 +109,17 @@ def lltSolve (sqrtF : K → K) : (n : Nat) → Mat K n n → Vec K n → Except 
     | .error k => .error (k+1)
     | .ok x' => .ok (consV ((y0 - sumFin n (fun i => l[i] * x'[i])) / l00) x')
 
+/-- solve `(L Lᵀ) x = b` with the stored Cholesky factor, by the same recursion as `lltSolve` -/
+def solveLL : (n : Nat) → Mat K n n → Vec K n → Vec K n
+  | 0, _, _ => Vector.ofFn fun i => i.elim0
+  | n+1, L, b =>
+    let l00 := L[(0 : Fin (n+1))][(0 : Fin (n+1))]
+    let l : Vec K n := Vector.ofFn fun i => L[i.succ][(0 : Fin (n+1))]
+    let y0 := b[(0 : Fin (n+1))] / l00
+    let b' : Vec K n := Vector.ofFn fun i => b[i.succ] - l[i] * y0
+    let x' := solveLL n (minorM L) b'
+    consV ((y0 - sumFin n (fun i => l[i] * x'[i])) / l00) x'
+
 end
 
 /-- symmetric permutation `C = A(p,p)` : `C i j = A (p i) (p j)` -/
